@@ -561,66 +561,16 @@ def expectedSuppliers : SupplierTable :=
   ["TriMesh", "ColouredTriMesh", "TexturedTriMesh"].map
     (fun c => (c, suppliedMethods.map (fun m => (m, expectedSupplierOf c m))))
 
-/-- the bodies this file transcribes, fingerprinted by the names they refer to: a function that
-starts to refer to something else (a clamp in `_normalize`, a delegation in a subclass `from_mask`,
-a memo attribute in `edge_indices`) no longer matches and the transcription has to be re-examined -/
+/-- the bodies this file transcribes that are NOT translated from the source text (harness/trans_c17.py translates
+every other anchored function on every run and GenProps/C17Src*.lean prove the translations equal to the definitions
+of this file, which supersedes a fingerprint), fingerprinted by the names they refer to: a function that starts to
+refer to something else no longer matches and the transcription has to be re-examined -/
 def expectedMechanism : NameTable :=
-  [("TriMesh.from_mask",
-     ["ValueError", "_isolated_mask", "all", "copy", "mask_adjacency_array", "n_points", "np",
-      "points", "reindex_adjacency_array", "shape", "trilist"]),
-   ("ColouredTriMesh.from_mask",
-     ["ValueError", "_isolated_mask", "all", "colours", "copy", "mask_adjacency_array",
-      "n_points", "np", "points", "reindex_adjacency_array", "shape", "trilist"]),
-   ("TexturedTriMesh.from_mask",
-     ["ValueError", "_isolated_mask", "all", "copy", "mask_adjacency_array", "n_points", "np",
-      "points", "reindex_adjacency_array", "shape", "tcoords", "trilist"]),
-   ("TriMesh.from_tri_mask",
-     ["bool", "from_mask", "n_points", "np", "ravel", "trilist", "unique", "zeros"]),
-   ("TriMesh._isolated_mask",
-     ["copy", "mask_adjacency_array", "nonzero", "np", "setdiff1d", "trilist"]),
-   ("TriMesh.tri_areas",
-     ["ValueError", "abs", "cross", "linalg", "n_dims", "norm", "np", "points", "trilist"]),
-   ("TriMesh.boundary_tri_index",
-     ["any", "astype", "edge_indices", "int64", "n_points", "np", "ravel", "reshape", "sort",
-      "unique"]),
-   ("TriMesh.edge_indices",
-     ["hstack", "np", "reshape", "trilist"]),
-   ("TriMesh.unique_edge_indices",
-     ["ascontiguousarray", "dtype", "edge_indices", "itemsize", "np", "shape", "sort", "unique",
-      "view", "void"]),
-   ("TriMesh.edge_vectors",
-     ["hstack", "n_dims", "np", "points", "reshape", "trilist"]),
-   ("TriMesh.edge_lengths",
-     ["edge_vectors", "linalg", "norm", "np"]),
-   ("TriMesh.unique_edge_vectors",
-     ["points", "unique_edge_indices"]),
-   ("TriMesh.unique_edge_lengths",
-     ["linalg", "norm", "np", "unique_edge_vectors"]),
-   ("TriMesh.mean_edge_length",
-     ["edge_lengths", "mean", "np", "unique_edge_lengths"]),
-   ("TriMesh.mean_tri_area",
-     ["mean", "np", "tri_areas"]),
-   ("TriMesh.tri_normals",
-     ["ValueError", "compute_face_normals", "n_dims", "points", "trilist"]),
-   ("TriMesh.vertex_normals",
-     ["ValueError", "compute_vertex_normals", "n_dims", "points", "trilist"]),
-   ("TriMesh.as_pointgraph",
+  [("TriMesh.as_pointgraph",
      ["PointUndirectedGraph", "_convert_edges_to_symmetric_adjacency_matrix", "graph",
       "landmarks", "points", "shape", "trilist", "trilist_to_adjacency_array"]),
-   ("mask_adjacency_array",
-     ["any", "isin", "nonzero", "np", "ravel", "reshape", "shape"]),
-   ("reindex_adjacency_array",
-     ["arange", "int", "max", "np", "shape", "unique"]),
-   ("_normalize",
-     ["nan_to_num", "np", "sqrt", "sum"]),
-   ("compute_face_normals",
-     ["_normalize", "cross", "np"]),
-   ("compute_vertex_normals",
-     ["_normalize", "add", "at", "compute_face_normals", "dtype", "np", "shape", "zeros"]),
    ("subsampled_grid_triangulation",
-     ["arange", "astype", "concatenate", "np", "prod", "ravel", "uint32", "vstack", "zeros"]),
-   ("trilist_to_adjacency_array",
-     ["concatenate", "hstack", "np"])]
+     ["arange", "astype", "concatenate", "np", "prod", "ravel", "uint32", "vstack", "zeros"])]
 
 /-- a mesh object answering queries from its state -/
 structure Machine (S Q R : Type) where
